@@ -1,6 +1,7 @@
 package main
 
 import (
+	"go/constant"
 	"go/token"
 	"go/types"
 	"strings"
@@ -158,7 +159,25 @@ func shutdownArmLeaves(c *Ctx, names ...string) {
 				return
 			}
 			sel := it.Sel
-			back, path := reg.From(it.After()).Reach(func(x Item) bool { return x.In == ssa.Instruction(sel) }, nil)
+			r := *reg.From(it.After())
+			// the select sits in an immediately-invoked literal that reports "keep going" (a loop step inlined
+			// back into `for step() {}`): where every return reachable from the arm yields the same constant,
+			// the caller's branch on the call takes that side only
+			if g := sel.Parent(); g != nil {
+				if cl := iifeCall(g); cl != nil {
+					if k, ok := constReturnFrom(it.To, sel); ok {
+						if iff, isIf := lastInstr(cl.Block()).(*ssa.If); isIf && strip(iff.Cond) == ssa.Value(cl) && len(cl.Block().Succs) == 2 {
+							dead := cl.Block().Succs[0]
+							if k {
+								dead = cl.Block().Succs[1]
+							}
+							from := cl.Block()
+							r.Cut = func(a, b *ssa.BasicBlock) bool { return a == from && b == dead }
+						}
+					}
+				}
+			}
+			back, path := r.Reach(func(x Item) bool { return x.In == ssa.Instruction(sel) }, nil)
 			c.Check(back.IsZero(), rule, fn, "shutdown-arm-leaves-the-loop", sel, "after the shutdown case is taken the same select is not entered again", "after the case on "+strings.Join(chans, "/")+" is taken "+name+" can come back to the very same select: a closed channel is always ready, so the goroutine spins on it and never reaches what it has to do on the way out (its deferred session.cancel(), a close, a Done) — for a session without claims this watcher is the only thing that turns Close() into the end of the session: Consume never returns, and Close deadlocks behind it", path)
 		})
 	}
@@ -408,3 +427,347 @@ func c18ConfigSliceNotWritten(c *Ctx) {
 	}
 	c.Check(n > 0, rule, nil, "config-slices-not-written:scanned", nil, "every append and element store of the package was looked at", "no append found in the package (loader problem)", nil)
 }
+
+// constReturnFrom: every return of the function reachable from block b (without passing the select again) returns
+// the same boolean constant.
+func constReturnFrom(b *ssa.BasicBlock, sel *ssa.Select) (bool, bool) {
+	seen := map[*ssa.BasicBlock]bool{}
+	var vals []bool
+	ok := true
+	var walk func(x *ssa.BasicBlock)
+	walk = func(x *ssa.BasicBlock) {
+		if seen[x] || !ok {
+			return
+		}
+		seen[x] = true
+		for _, in := range x.Instrs {
+			if in == ssa.Instruction(sel) {
+				ok = false
+				return
+			}
+		}
+		if r, isRet := lastInstr(x).(*ssa.Return); isRet {
+			if len(r.Results) != 1 {
+				ok = false
+				return
+			}
+			c, isC := r.Results[0].(*ssa.Const)
+			if !isC || c.Value == nil || c.Value.Kind() != constant.Bool {
+				ok = false
+				return
+			}
+			vals = append(vals, constant.BoolVal(c.Value))
+			return
+		}
+		for _, s := range x.Succs {
+			walk(s)
+		}
+	}
+	walk(b)
+	if !ok || len(vals) == 0 {
+		return false, false
+	}
+	for _, v := range vals {
+		if v != vals[0] {
+			return false, false
+		}
+	}
+	return vals[0], true
+}
+
+// C09.prep-real / size:varintLengthField.reserveLength: the room reserved for a varint length is what the varint takes.
+func c09VarintReserve(c *Ctx) {
+	p := c.P
+	rule := "C09.prep-real"
+	fn := c.NeedFn(rule, "varintLengthField.reserveLength")
+	if fn == nil {
+		return
+	}
+	ok := true
+	n := 0
+	for _, b := range fn.Blocks {
+		r, isRet := lastInstr(b).(*ssa.Return)
+		if !isRet {
+			continue
+		}
+		for _, v := range RetVals(r) {
+			n++
+			cl, isCall := strip(throughCell(v)).(*ssa.Call)
+			if !isCall || p.CalleeName(&cl.Call) != "encoding/binary.PutVarint" || len(cl.Call.Args) != 2 || !FieldLoad("varintLengthField.length")(cl.Call.Args[1]) {
+				ok = false
+			}
+		}
+	}
+	c.Check(ok && n > 0, rule, fn, "size:varintLengthField.reserveLength", nil, "reserveLength returns binary.PutVarint(scratch, l.length) — the size of the very encoding run() writes", "varintLengthField.reserveLength does not return what binary.PutVarint reports for l.length (a hand-written size computation cannot be compared with the encoder's: e.g. `for ux > 0x80` instead of `>= 0x80` reserves one byte too few exactly where the zig-zag value is a power of 128 — a record whose body is 64 or 8192..8255 bytes long): the 2-byte length is written into a 1-byte slot over the record's attributes, the batch is one byte short, length and CRC are computed over the garbled bytes and look valid — the broker stores a batch whose records do not parse and the producer reports success for a message that is not in the log", nil)
+}
+
+// C13.sticky-kept / userdata-fallback-on-empty: a member without static user data forwards what it got at its last sync.
+func c13UserDataFallback(c *Ctx) {
+	rule := "C13.sticky-kept"
+	fn := c.NeedFn(rule, "consumerGroup.joinGroupRequest")
+	if fn == nil {
+		return
+	}
+	cfg := FieldLoad("Config.Consumer.Group.Member.UserData")
+	n := 0
+	Info(fn).Each(func(it Item) {
+		st, ok := it.In.(*ssa.Store)
+		if !ok || !StoreTo(nil, "ConsumerGroupMemberMetadata.UserData")(it) {
+			return
+		}
+		n++
+		v := strip(throughCell(st.Val))
+		ph, isPhi := v.(*ssa.Phi)
+		if !isPhi {
+			c.Check(!cfg(v), rule, fn, "userdata-fallback-on-empty", st, "", "the member metadata always carries the static Member.UserData, the user data of the last sync is never forwarded: the sticky leader has no previous plan to keep", nil)
+			return
+		}
+		hasLast := false
+		for i, e := range ph.Edges {
+			if FieldLoad("consumerGroup.userData")(e) {
+				hasLast = true
+			}
+			if !cfg(e) {
+				continue
+			}
+			from, to := ph.Block().Preds[i], ph.Block()
+			nonEmpty := AnyOf{Cmp{token.NEQ, LenOf(cfg), ConstInt(0)}, Cmp{token.GTR, LenOf(cfg), ConstInt(0)}}
+			ok := Establishes(from, to, nonEmpty)
+			c.Check(ok, rule, fn, "userdata-fallback-on-empty", st, "the static Member.UserData is sent only where it is non-empty (len > 0)", "the static Member.UserData is used wherever it is non-nil, also when it is EMPTY ([]byte(\"\"), []byte(os.Getenv(\"UNSET\"))): the member then never forwards the user data it received at its last sync and sends a zero-length, non-nil blob instead, which the sticky leader cannot decode ('insufficient data to decode packet') — Plan fails instead of returning the previous plan", nil)
+		}
+		c.Check(hasLast, rule, fn, "userdata-fallback-on-empty:last-sync", st, "the user data of the last sync is one of the values sent", "the user data received at the last sync (c.userData) is never sent in the next join: the sticky strategy loses its previous plan", nil)
+	})
+	if n == 0 {
+		c.Unresolved(rule, "store of ConsumerGroupMemberMetadata.UserData in joinGroupRequest")
+	}
+}
+
+// C05.seq-once / stamp-atomic: sequence number and epoch of a stamp are read in one critical section.
+func c05StampAtomic(c *Ctx) {
+	rule := "C05.seq-once"
+	fn := c.NeedFn(rule, "transactionManager.getAndIncrementSequenceNumber")
+	if fn == nil {
+		return
+	}
+	at := acquisitionsAt(fn)
+	site := func(in ssa.Instruction) ssa.Instruction {
+		for d := 0; d < 6 && in != nil && in.Parent() != fn; d++ {
+			cl := iifeCall(in.Parent())
+			if cl == nil {
+				return nil
+			}
+			in = cl
+		}
+		return in
+	}
+	type touch struct {
+		in   ssa.Instruction
+		what string
+		base ssa.Value
+	}
+	var touches []touch
+	// everything the function (with helpers one level down) does to the two fields
+	for _, f := range c.P.withHelpers(fn, 1) {
+		if f != fn && rootOf(f) != fn {
+			// a helper that was not inlined back: what it touches happens at its call site
+			var calls []ssa.Instruction
+			Info(fn).Each(func(it Item) {
+				if cl, ok := it.In.(*ssa.Call); ok && cl.Call.StaticCallee() == f {
+					calls = append(calls, cl)
+				}
+			})
+			touchesField := false
+			Info(f).Each(func(it Item) {
+				for _, op := range it.In.Operands(nil) {
+					if fa, ok := (*op).(*ssa.FieldAddr); ok {
+						if o, n, _, ok := ownerField(fa); ok && o == "transactionManager" && (n == "sequenceNumbers" || n == "producerEpoch") {
+							touchesField = true
+						}
+					}
+				}
+			})
+			if touchesField {
+				for _, cl := range calls {
+					touches = append(touches, touch{cl, "call of " + c.P.Name(f), canon(fn.Params[0])})
+				}
+			}
+			continue
+		}
+		Info(f).Each(func(it Item) {
+			for _, op := range it.In.Operands(nil) {
+				if fa, ok := (*op).(*ssa.FieldAddr); ok {
+					if o, n, base, ok := ownerField(fa); ok && o == "transactionManager" && (n == "sequenceNumbers" || n == "producerEpoch") {
+						if s := site(it.In); s != nil {
+							touches = append(touches, touch{s, n, base})
+						}
+					}
+				}
+			}
+		})
+	}
+	if len(touches) < 2 {
+		c.Unresolved(rule, "reads of sequenceNumbers and producerEpoch in getAndIncrementSequenceNumber")
+		return
+	}
+	acq := map[ssa.Instruction]bool{}
+	bad := ""
+	var badAt ssa.Instruction
+	for _, t := range touches {
+		cur := at[t.in][lockKey{t.base, "mutex"}]
+		switch {
+		case len(cur) == 0:
+			bad, badAt = t.what+" is not under the transaction manager's mutex as held by getAndIncrementSequenceNumber itself (a helper that takes the lock on its own is a critical section of its own)", t.in
+		case len(cur) > 1:
+			bad, badAt = t.what+" may be under different acquisitions of the mutex", t.in
+		default:
+			for a := range cur {
+				acq[a] = true
+			}
+		}
+	}
+	if bad == "" && len(acq) > 1 {
+		bad = "the sequence number and the epoch are read under different acquisitions of the mutex"
+	}
+	c.Check(bad == "", rule, fn, "stamp-atomic", badAt, "the sequence counter and the epoch are read (and the counter advanced) under one acquisition of t.mutex", "getAndIncrementSequenceNumber does not take the sequence number and the epoch in one critical section ("+bad+"): bumpEpoch — run by another partition's failure — can slip in between, and the stamp is torn: a sequence number of the old epoch with the new epoch.  The first batch of the new epoch then does not start at 0 (OutOfOrderSequenceNumber, which bumps again), or two messages carry (0, E+1) and the second is answered DuplicateSequenceNumber — reported successful without being in the log", nil)
+}
+
+// C19.verdict / failure-ends-the-fan-out: a broker that fails fails the operation.
+func c19FailureEndsFanOut(c *Ctx) {
+	p := c.P
+	rule := "C19.verdict"
+	n := 0
+	for _, fn := range p.Fns {
+		if fn.Blocks == nil || fn.Parent() != nil || !p.inFile(fn, "admin.go") {
+			continue
+		}
+		fi := Info(fn)
+		reg := WholeFn(fn)
+		for _, b := range fn.Blocks {
+			l := fi.InnermostLoop(b)
+			if l == nil {
+				continue
+			}
+			for _, in := range b.Instrs {
+				cl, ok := in.(*ssa.Call)
+				if !ok || cl.Call.IsInvoke() {
+					continue
+				}
+				callee := cl.Call.StaticCallee()
+				if callee == nil || callee.Signature.Recv() == nil || !isPtrToNamed(callee.Signature.Recv().Type(), "Broker") {
+					continue
+				}
+				res := callee.Signature.Results()
+				if res.Len() != 2 || res.At(1).Type().String() != "error" {
+					continue
+				}
+				// the error of this call: the extract, or the variable it is stored into
+				isErr := func(v ssa.Value) bool {
+					v = strip(v)
+					if ex, ok := v.(*ssa.Extract); ok && ex.Tuple == ssa.Value(cl) && ex.Index == 1 {
+						return true
+					}
+					if u, ok := v.(*ssa.UnOp); ok && u.Op == token.MUL {
+						if al, ok := u.X.(*ssa.Alloc); ok {
+							for _, r := range *al.Referrers() {
+								if st, ok := r.(*ssa.Store); ok && st.Addr == ssa.Value(al) {
+									if ex, ok := strip(st.Val).(*ssa.Extract); ok && ex.Tuple == ssa.Value(cl) && ex.Index == 1 {
+										return true
+									}
+								}
+							}
+						}
+					}
+					return false
+				}
+				edges := reg.EstablishingEdges(Cmp{token.NEQ, isErr, IsNil()})
+				for _, e := range edges {
+					if !l.Blocks[e.From] {
+						continue
+					}
+					n++
+					head := l.Head
+					// … or the error is put aside (appended to a list of errors, sent on a channel) before going on
+					kept := func(x Item) bool {
+						if cl2, ok := x.In.(*ssa.Call); ok {
+							if b, ok := cl2.Call.Value.(*ssa.Builtin); ok && b.Name() == "append" {
+								for _, a := range cl2.Call.Args[1:] {
+									if isErr(a) {
+										return true
+									}
+									// append(errs, err) passes the element through a one-element slice
+									if sl, ok := a.(*ssa.Slice); ok {
+										if al, ok := sl.X.(*ssa.Alloc); ok {
+											for _, r := range *al.Referrers() {
+												if ia, ok := r.(*ssa.IndexAddr); ok {
+													for _, r2 := range *ia.Referrers() {
+														if st, ok := r2.(*ssa.Store); ok && isErr(st.Val) {
+															return true
+														}
+													}
+												}
+											}
+										}
+									}
+								}
+							}
+						}
+						if snd, ok := x.In.(*ssa.Send); ok && isErr(snd.X) {
+							return true
+						}
+						return false
+					}
+					it, path := reg.From(Pt{e.To, 0}).Reach(func(x Item) bool {
+						return x.In != nil && x.In.Block() == head && x.In == head.Instrs[0]
+					}, kept)
+					c.Check(it.IsZero(), rule, fn, "failure-ends-the-fan-out:"+callee.Name(), cl, "where a broker's request failed the loop over the brokers is left, or the error is put aside in a list before the next broker is asked", "after "+p.Name(callee)+" failed for one broker "+p.Name(fn)+" goes on with the next one: whatever error variable it keeps is overwritten by the next broker's verdict, and with the map's random iteration order a healthy broker visited after the failed one turns the failure into success — the operation reports nil with a silently incomplete result", path)
+				}
+			}
+		}
+	}
+	c.Check(n > 0, rule, nil, "failure-ends-the-fan-out:instances", nil, "synchronous per-broker loops found in admin.go", "no synchronous per-broker request loop found in admin.go (anchor drifted)", nil)
+}
+
+// a deferred Unlock inside a loop: the unlock runs when the FUNCTION returns, the next iteration locks again.
+func deferUnlockInLoopRule(c *Ctx, rule string, files []string) {
+	p := c.P
+	n := 0
+	for _, fn := range p.Fns {
+		if fn.Blocks == nil || rootOf(fn).Pkg == nil || (rootOf(fn).Pkg != p.Sarama && rootOf(fn).Pkg != p.Mocks) {
+			continue
+		}
+		if files != nil {
+			in := false
+			for _, f := range files {
+				if p.inFile(fn, f) {
+					in = true
+				}
+			}
+			if !in {
+				continue
+			}
+		}
+		fi := Info(fn)
+		for _, b := range fn.Blocks {
+			for _, in := range b.Instrs {
+				d, ok := in.(*ssa.Defer)
+				if !ok {
+					continue
+				}
+				switch p.CalleeName(&d.Call) {
+				case "(*sync.Mutex).Unlock", "(*sync.RWMutex).Unlock", "(*sync.RWMutex).RUnlock":
+				default:
+					continue
+				}
+				n++
+				l := fi.InnermostLoop(b)
+				c.Check(l == nil, rule, fn, "no-deferred-unlock-in-a-loop", d, "the deferred unlock is not inside a loop", "`defer mu.Unlock()` inside a loop body: the unlock runs when the function (or function literal) returns, not at the end of the iteration — the second iteration locks a mutex the first one still holds and blocks for ever.  In the final flush loop of offsetManager.Close that is the second attempt: one rejected commit and Close never returns, the latest mark never reaches the coordinator that would accept it", nil)
+			}
+		}
+	}
+	_ = n
+}
+
+func c06DeferUnlockInLoop(c *Ctx) {
+	deferUnlockInLoopRule(c, "C06.lock", []string{"offset_manager.go", "consumer_group.go"})
+}
+func c12DeferUnlockInLoop(c *Ctx) { deferUnlockInLoopRule(c, "C12.pairing", nil) }
